@@ -318,3 +318,15 @@ def _probe_big_type(work, ps, rpus):
         got = [p_ for _, p_ in F.read_split(os.path.join(d, "o.hevc")) if H.nal_type(p_) == H.SEI_PREFIX]
         return "exit 0, output prefix SEI messages %s" % [[(t, len(x)) for t, x in H.parse_sei(g)] for g in got]
     return "exit %d (%s)" % (res.rc, "panic" if res.rc == 101 else "error")
+
+
+def replay(ctx, path):
+    """every case is a deterministic function of (seed, tier): a replay re-runs the check with the seed and
+    tier recorded in the replay file (the offending input files are kept next to it for inspection)"""
+    import json
+    d = json.load(open(path))
+    ctx.seed = int(d.get("seed", ctx.seed))
+    ctx.tier = d.get("tier", ctx.tier)
+    ctx.rng = common.Lcg(ctx.seed)
+    run(ctx)
+    return ctx.finish()
